@@ -9,7 +9,7 @@ from harness.props.vbsutil import read_all, render_end, KeepOpen
 PROP = 'C06'
 RULE = ("lists of 1..60 (quick) / 1..300 (thorough) heterogeneous well-formed messages written with IpmWriter and read back "
         "with IpmReader: {latin_1, cp500, cp037} x {VBS, 1014} x {packaged, generated} configuration, files spanning many "
-        "blocks; plus 2-4 reader/writer instances driven in interleaved order (one of them hitting a data error while the "
+        "blocks; records tuned so that their ends / prefixes fall on or next to a 1012-byte payload boundary;  plus 2-4 reader/writer instances driven in interleaved order (one of them hitting a data error while the "
         "others continue), compared with the per-instance model. Non-trivial = at least two messages or an interleaving; "
         "distinct = distinct (config, codec, format, message list / schedule)")
 TRUSTED = c01.TRUSTED + ["instance isolation (class-level defaults, __getattr__ proxies) is established by this "
@@ -204,6 +204,27 @@ def interleave_model_obs(case, resp):
     return out
 
 
+def sized_message(rng, codec, total):
+    """a packaged-configuration message (MTI, DE2, plain LLLVAR text elements) whose encoding is exactly `total` bytes"""
+    base = 4 + 16 + 2 + 16
+    fillers = [54, 72, 111, 127]
+    rest = total - base
+    if rest < 4 or rest > len(fillers) * 1002:
+        return None
+    m = {'MTI': '1240', 'DE2': ''.join(rng.choice('0123456789') for _ in range(16))}
+    for i, bit in enumerate(fillers):
+        left = len(fillers) - i - 1
+        if rest <= 0:
+            break
+        take = min(1002, rest) if rest - min(1002, rest) == 0 or rest - min(1002, rest) >= 4 else rest - 4
+        if left == 0:
+            take = rest
+        m[f'DE{bit}'] = iu.text(rng, codec, take - 3, 'any')
+        rest -= take
+    assert len(iu.ref_encode(m, iu.pkg_config(), codec, False)) == total, (total, rest)
+    return m
+
+
 def explore(run, tier):
     rng = common.rng_for(run.seed, PROP)
     pkg = iu.pkg_config()
@@ -230,6 +251,32 @@ def explore(run, tier):
                     cases.append({'k': 'file', 'cfg': cfg, 'codec': codec, 'b': b,
                                   'msgs': [iu.dict_wire(m) for m, _ in pairs], 'exps': [iu.dict_wire(e) for _, e in pairs],
                                   'with': i % 2 == 0, 'many': i % 4 == 0, 'defaultcfg': cfg == 'pkg' and i % 3 == 0})
+    # records whose ends / length prefixes land exactly on (or next to) a 1012-byte payload boundary, spanning
+    # one to three further blocks: message sizes are tuned with plain LLLVAR text elements
+    for codec in codecs3:
+        for b in (0, 1):
+            for npre in (0, 1, 3):
+                for k in (1, 2, 3):
+                    for d in ((-1, 0, 1) if tier == 'quick' else (-5, -4, -3, -2, -1, 0, 1, 2, 3, 4)):
+                        pre = []
+                        while len(pre) < npre:
+                            m, e = iu.gen_message(rng, pkg, codec)
+                            try:
+                                if len(iu.ref_encode(m, pkg, codec, False)) <= 700:
+                                    pre.append((m, e))
+                            except iu.RefError:
+                                pass
+                        o = sum(4 + len(iu.ref_encode(m, pkg, codec, False)) for m, _ in pre)
+                        want = 1012 * (o // 1012 + 1 + k) + d - (o + 4)
+                        tuned = sized_message(rng, codec, want)
+                        if tuned is None:
+                            continue
+                        tail = iu.gen_message(rng, pkg, codec, bits=[2, 3, 4])
+                        pairs = pre + [(tuned, dict(tuned)), tail]
+                        cases.append({'k': 'file', 'cfg': 'pkg', 'codec': codec, 'b': b,
+                                      'msgs': [iu.dict_wire(m) for m, _ in pairs],
+                                      'exps': [iu.dict_wire(e) for _, e in pairs],
+                                      'with': k % 2 == 0, 'many': d == 0, 'defaultcfg': npre == 1})
     for _ in range(40 if tier == 'quick' else 400):
         k = rng.randrange(2, 5)
         insts = []
